@@ -1,10 +1,235 @@
 import Driver.Util
-open Lean Driver
+import Driver.Img
+import GinjaxVerif.Model.C08
+open Lean Driver GinjaxVerif
 
+/-!
+Driver ops for C08.  Exact ops (`Int` / `Rat`): `c08.avg_pool`, `c08.unpool`, `c08.unpool_conv`,
+`c08.max_pool`, `c08.max_pool_raw`, `c08.norm_sq`, `c08.stats`.  Float ops (the model instantiated
+at `R := Float`, doubles transported as their IEEE bit patterns): `c08.group_norm`, `c08.vn`.
+Blocks are `{"shape":[C, spatial…, d…], "data":[…]}` (`"bits"` for doubles).
+-/
 namespace Driver.C08
 
-def handle (op : String) (_j : Json) : R Json := do
+instance : Zero Float := ⟨0.0⟩
+instance : One Float := ⟨1.0⟩
+instance : NatCast Float := ⟨Float.ofNat⟩
+
+def toFin (d : Nat) (n : List Nat) : List (Fin d) :=
+  n.filterMap (fun a => if h : a < d then some (⟨a, h⟩ : Fin d) else none)
+
+def parseBlk {α : Type} (d : Nat) (dflt : α) (pv : Json → R α) (key : String) (j : Json) :
+    R (Blk α d) := do
+  let shape ← listF asNat j "shape"
+  let data ← listF pv j key
+  if shape.length < d + 1 then throw "block shape shorter than 1 + d"
+  let spatial := (shape.drop 1).take d
+  let tens := shape.drop (d + 1)
+  if tens.any (· ≠ d) then throw "tensor axes must have extent d"
+  if data.length ≠ shape.foldl (· * ·) 1 then throw "data length does not match shape"
+  let arr := data.toArray
+  pure { C := shape.headD 0, dims := listToFn d 0 spatial, k := tens.length,
+         val := fun c y n =>
+           arr.getD (ravelIdx shape (c :: ((fnToList y).map Int.toNat ++ n.map (·.val)))) dflt }
+
+def blkShape {α : Type} {d : Nat} (B : Blk α d) : List Nat :=
+  B.C :: (fnToList B.dims ++ List.replicate B.k d)
+
+def blkVals {α : Type} {d : Nat} (B : Blk α d) : List α :=
+  (List.range B.C).flatMap (fun c =>
+    (boxIdx (fnToList B.dims)).flatMap (fun y =>
+      (boxIdx (List.replicate B.k d)).map (fun n =>
+        B.val c (listToFn d 0 (y.map Int.ofNat)) (toFin d n))))
+
+def blkJson {α : Type} {d : Nat} (f : α → Json) (key : String) (B : Blk α d) : Json :=
+  Json.mkObj [("shape", jList jNat (blkShape B)), (key, jList f (blkVals B))]
+
+/-- array-backed copy (same values on channels `< C`, the box, index lists of length `k`) -/
+def tabBlk {α : Type} {d : Nat} (dflt : α) (B : Blk α d) : Blk α d :=
+  let shape := blkShape B
+  let arr := (blkVals B).toArray
+  { B with val := fun c y n =>
+      arr.getD (ravelIdx shape (c :: ((fnToList y).map Int.toNat ++ n.map (·.val)))) dflt }
+
+def asBits (j : Json) : R Float := do
+  let n ← asNat j
+  pure (Float.ofBits n.toUInt64)
+
+def jBits (x : Float) : Json := jNat x.toBits.toNat
+
+def mapBlk {α β : Type} {d : Nat} (f : α → β) (B : Blk α d) : Blk β d :=
+  { C := B.C, dims := B.dims, k := B.k, val := fun c y n => f (B.val c y n) }
+
+def checkPatch {α : Type} {d : Nat} (P : Nat) (B : Blk α d) : R Unit := do
+  if P = 0 then throw "patch length must be positive"
+  if (List.finRange d).any (fun j => B.dims j % P ≠ 0) then
+    throw "patch length must divide every spatial extent"
+
+/-! ### symmetric inverse square root (stands for `eigh`): cyclic Jacobi iteration -/
+
+abbrev FM := Array (Array Float)
+
+def fmGet (A : FM) (i j : Nat) : Float := (A.getD i #[]).getD j 0.0
+
+def fmOf (n : Nat) (f : Nat → Nat → Float) : FM :=
+  (Array.range n).map (fun i => (Array.range n).map (fun j => f i j))
+
+def fmMul (n : Nat) (A B : FM) : FM :=
+  fmOf n (fun i j => (List.range n).foldl (fun acc l => acc + fmGet A i l * fmGet B l j) 0.0)
+
+def fmT (n : Nat) (A : FM) : FM := fmOf n (fun i j => fmGet A j i)
+
+/-- one Jacobi rotation annihilating the entry `(p, q)` -/
+def jacobiStep (n p q : Nat) (AV : FM × FM) : FM × FM :=
+  let (A, V) := AV
+  let apq := fmGet A p q
+  if apq.abs < 1e-300 then (A, V)
+  else
+    let theta := (fmGet A q q - fmGet A p p) / (2.0 * apq)
+    let t := (if theta < 0.0 then -1.0 else 1.0) / (theta.abs + Float.sqrt (theta * theta + 1.0))
+    let c := 1.0 / Float.sqrt (t * t + 1.0)
+    let s := t * c
+    let J := fmOf n (fun i j =>
+      if i = p ∧ j = p then c else if i = q ∧ j = q then c
+      else if i = p ∧ j = q then s else if i = q ∧ j = p then -s
+      else if i = j then 1.0 else 0.0)
+    (fmMul n (fmT n J) (fmMul n A J), fmMul n V J)
+
+/-- `U diag(f λ) Uᵀ` of a symmetric matrix -/
+def symFun (n : Nat) (f : Float → Float) (A : FM) : FM :=
+  let pairs := (List.range n).flatMap (fun p => ((List.range n).filter (· > p)).map (fun q => (p, q)))
+  let (D, V) := (List.range 30).foldl
+    (fun AV _ => pairs.foldl (fun AV pq => jacobiStep n pq.1 pq.2 AV) AV) (A, fmOf n (fun i j => if i = j then 1.0 else 0.0))
+  fmOf n (fun i j => (List.range n).foldl (fun acc l => acc + fmGet V i l * f (fmGet D l l) * fmGet V j l) 0.0)
+
+def invSqrtSym {d : Nat} (Cv : RMat Float d) : RMat Float d :=
+  let A := fmOf d (fun i j => if h : i < d ∧ j < d then Cv ⟨i, h.1⟩ ⟨j, h.2⟩ else 0.0)
+  let W := symFun d (fun l => 1.0 / Float.sqrt l) A
+  fun i j => fmGet W i.val j.val
+
+def activation (name : String) : R (Float → Float) :=
+  match name with
+  | "relu" => pure (fun x => if x < 0.0 then 0.0 else x)
+  | "tanh" => pure Float.tanh
+  | "leaky_relu" => pure (fun x => if x < 0.0 then 0.01 * x else x)
+  | "identity" => pure id
+  | "square" => pure (fun x => x * x)
+  | _ => throw s!"unknown activation {name}"
+
+def vecF (l : List Float) : Nat → Float := fun c => l.getD c 0.0
+
+/-! ### ops -/
+
+def handle (op : String) (j : Json) : R Json := do
+  let d ← natF j "d"
   match op with
+  | "c08.avg_pool" =>
+    let P ← natF j "P"
+    let B ← field j "block" >>= parseBlk d (0 : Int) asInt "data"
+    checkPatch P B
+    let Bq : Blk Rat d := mapBlk (fun (v : Int) => (v : Rat)) B
+    pure (blkJson jRat "data" (averagePool P Bq))
+  | "c08.patch_mean" =>
+    let P ← natF j "P"
+    let B ← field j "block" >>= parseBlk d (0 : Int) asInt "data"
+    checkPatch P B
+    let Bq : Blk Rat d := mapBlk (fun (v : Int) => (v : Rat)) B
+    pure (blkJson jRat "data" (patchMean P Bq))
+  | "c08.unpool" =>
+    let P ← natF j "P"
+    let B ← field j "block" >>= parseBlk d (0 : Int) asInt "data"
+    if P = 0 then throw "patch length must be positive"
+    pure (blkJson jInt "data" (unpool P B))
+  | "c08.unpool_conv" =>
+    let P ← natF j "P"
+    let B ← field j "block" >>= parseBlk d (0 : Int) asInt "data"
+    if P = 0 then throw "patch length must be positive"
+    pure (blkJson jInt "data" (unpoolConv P B))
+  | "c08.max_pool" =>
+    let P ← natF j "P"
+    let B ← field j "block" >>= parseBlk d (0 : Int) asInt "data"
+    checkPatch P B
+    pure (blkJson jInt "data" (maxPool P B))
+  | "c08.max_pool_raw" =>
+    let P ← natF j "P"
+    let B ← field j "block" >>= parseBlk d (0 : Int) asInt "data"
+    checkPatch P B
+    if B.k ≠ 0 then throw "use_norm=False needs a scalar image"
+    pure (blkJson jInt "data" (maxPoolRaw P B))
+  | "c08.norm_sq" =>
+    let B ← field j "block" >>= parseBlk d (0 : Int) asInt "data"
+    let N : Blk Int d := { C := B.C, dims := B.dims, k := 0, val := fun c y _ => normSq (B.img c) y }
+    pure (blkJson jInt "data" N)
+  | "c08.stats" =>
+    let G ← natF j "G"
+    let B ← field j "block" >>= parseBlk d (0 : Int) asInt "data"
+    if G = 0 ∨ B.C % G ≠ 0 then throw "groups must evenly divide channels"
+    let Bq : Blk Rat d := mapBlk (fun (v : Int) => (v : Rat)) B
+    let cpg := B.C / G
+    let comps : List (List (Fin d)) :=
+      if B.k = 0 then [[]] else if B.k = 1 then (List.finRange d).map (fun i => [i])
+      else []
+    if comps.isEmpty then throw "statistics are defined for k <= 1"
+    let means := (List.range G).map (fun grp => comps.map (fun n => grpMean Bq cpg grp n))
+    let second :=
+      if B.k = 0 then (List.range G).map (fun grp => [grpVar Bq cpg grp])
+      else (List.range G).map (fun grp =>
+        (List.finRange d).flatMap (fun a => (List.finRange d).map (fun b => grpCov Bq cpg grp a b)))
+    let cmeans := (List.range B.C).map (fun c => comps.map (fun n => chanMean Bq c n))
+    pure (Json.mkObj [("mean", jList (jList jRat) means), ("second", jList (jList jRat) second),
+      ("chan_mean", jList (jList jRat) cmeans)])
+  | "c08.group_norm" =>
+    let G ← natF j "G"
+    let kind ← strF j "kind"
+    let eps ← field j "eps" >>= asBits
+    let B ← field j "block" >>= parseBlk d (0.0 : Float) asBits "bits"
+    if G = 0 ∨ B.C % G ≠ 0 then throw "groups must evenly divide channels"
+    let cpg := B.C / G
+    let rsqrt : Float → Float := fun v => 1.0 / Float.sqrt v
+    let max0 : Float → Float := fun v => if v < 0.0 then 0.0 else v
+    match kind with
+    | "scalar" | "pseudo" | "pseudo_legacy" =>
+      if B.k ≠ 0 then throw "scalar branch needs k = 0"
+      let means := ((List.range G).map (fun grp => grpMean B cpg grp [])).toArray
+      let vars := ((List.range G).map (fun grp => grpVar B cpg grp)).toArray
+      let core := normCoreWith rsqrt max0 eps cpg (fun grp => means.getD grp 0.0)
+        (fun grp => vars.getD grp 0.0) B
+      if kind = "pseudo" then
+        let scale ← listF asBits j "scale"
+        pure (blkJson jBits "bits" (scaleCh (vecF scale) core))
+      else
+        let weight ← listF asBits j "weight"
+        let bias ← listF asBits j "bias"
+        pure (blkJson jBits "bits" (affine (vecF weight) (vecF bias) core))
+    | "vector" | "vector_nowhiten" =>
+      if B.k ≠ 1 then throw "vector branch needs k = 1"
+      let scale ← listF asBits j "scale"
+      let bias ← listF asBits j "bias"
+      let means := ((List.range G).map (fun grp =>
+        ((List.finRange d).map (fun i => grpMean B cpg grp [i])).toArray)).toArray
+      let Ws := ((List.range G).map (fun grp =>
+        let W : RMat Float d :=
+          if kind = "vector" then invSqrtSym (addEps eps (grpCov B cpg grp))
+          else (fun i l => if i = l then 1.0 else 0.0)
+        ((List.finRange d).map (fun i => ((List.finRange d).map (fun l => W i l)).toArray)).toArray)).toArray
+      let wh := tabBlk 0.0 (whitenWith cpg (fun grp i => (means.getD grp #[]).getD i.val 0.0)
+        (fun grp i l => ((Ws.getD grp #[]).getD i.val #[]).getD l.val 0.0) B)
+      pure (blkJson jBits "bits" (vecAffine (vecF scale) (vecF bias) B wh))
+    | _ => throw s!"unknown kind {kind}"
+  | "c08.vn" =>
+    let eps ← field j "eps" >>= asBits
+    let actName ← strF j "act"
+    let act ← activation actName
+    let B ← field j "block" >>= parseBlk d (0.0 : Float) asBits "bits"
+    let Wl ← listF (asList asBits) j "W"
+    if Wl.length ≠ B.C ∨ Wl.any (fun r => r.length ≠ B.C) then throw "W must be C x C"
+    let Wa := (Wl.map (·.toArray)).toArray
+    let W : Nat → Nat → Float := fun i l => (Wa.getD i #[]).getD l 0.0
+    let scalarBranch := ((optField j "scalar").bind (fun v => (asBool v).toOption)).getD false
+    if scalarBranch then
+      pure (blkJson jBits "bits" (vnScalar act B))
+    else
+      pure (blkJson jBits "bits" (vnNonlinear Float.sqrt Float.abs act eps W B))
   | _ => throw s!"unknown op {op}"
 
 end Driver.C08
